@@ -267,6 +267,10 @@ class C20(Prop):
                 return ("tensor", tuple(x.inputs), np.asarray(x.data, dtype=float))
             if hasattr(x, "white_vec") and hasattr(x, "prec_sqrt"):
                 return ("gaussian", tuple(x.inputs), np.concatenate([np.asarray(x.white_vec, dtype=float).reshape(-1), np.asarray(x.prec_sqrt, dtype=float).reshape(-1)]))
+            arrs = [np.asarray(a_, dtype=float).reshape(-1) for a_ in arrays_of(x) if np.asarray(a_).dtype.kind in "fiub"]
+            if arrs and len(arrs) <= 8:
+                # e.g. a Tensor + Gaussian mixture: all arrays the result holds, in construction order
+                return (type(x).__name__.split("[")[0], tuple(x.inputs), np.concatenate(arrs))
             return None
 
         first_value = value_of(r) if isinstance(r, Funsor) else None
